@@ -23,6 +23,18 @@ CHECKS = {
                 text="UidRule (relation form of inner_insert/inner_remove) is model-checked for UidDistinct/UidSetExact/UidStable; real histories with colliding ids are validated with the bookkeeping set exposed by hook H2.",
                 note="Trusted: hook H2 returns the real bookkeeping set; fresh ids recognised by first sight.",
                 technique="TLA+ UidRule relation + TLC + trace validation with hook-exposed bookkeeping set"),
+    "C01": dict(level="model_checking", ref="§4 C01, §2.5",
+                text="Every generated forest is written by rbx_binary under the three compression modes and read back; TLC evaluates RoundTripIssues (BinaryFormat.tla) = {} on the logged before/after forests, with the permitted normalisations (BinaryString for unknown string blobs, 8-bit colour quantisation as a relation on bit patterns, epsilon rotation snapping, gained defaults) written as TLA+ operators over byte-vector values and the reflection database loaded as a constant.",
+                note="Value spaces are sampled (boundary tables + random bits); zstd/lz4 are trusted third-party code; the database export and the forest projection are trusted.",
+                technique="TLA+ specification of the binary format's meaning (BinaryFormat.tla, Reflection.tla) + trace validation of logged write/read cases"),
+    "C03": dict(level="model_checking", ref="§4 C03, §2.5",
+                text="The independent decoder is the TLA+ module BinaryWire (docs/binary.md transcribed; its worked examples are ASSUMEs checked every run). Every file rbx_binary emits for generated forests is decoded by TLC and must satisfy WriterInvariants (all structural clauses of the property) and FileIssues = {} (the decoded classes, hierarchy and values are exactly the forest), for all three compression modes with byte-identical chunk data; a document-literal dialect run lists where document and code disagree.",
+                note="Chunk bodies are decompressed with the lz4/zstd crates before TLC sees them; files are kept small enough for TLC's interpreter.",
+                technique="TLA+ transcription of docs/binary.md (BinaryWire.tla) decoding real files inside TLC + structural invariants"),
+    "C16": dict(level="model_checking", ref="§4 C16, §2.2",
+                text="The whole bundled database (797 classes, 3242 descriptors, 7231 defaults, 458 enums) is exported from the working tree and each entry is one TLC state whose coherence predicate (Reflection.tla) is an invariant - exhaustive. Closure under the codec: every class populated with its default set and every serializable descriptor are written/read by rbx_binary and judged by BinaryFormat.tla.",
+                note="The export walks the public rbx_reflection API; a regenerated database is checked as it is. Quick tier samples the closure cases, thorough runs all.",
+                technique="TLA+ coherence predicates over the database as a constant (TLC, exhaustive) + codec closure traces"),
     "C18": dict(level="model_checking", ref="§4 C18, §2.4",
                 text="TLC checks SharedString.tla for every interleaving of 3-4 threads (DataIntact, Dedup, EmptyAtQuiescence, deadlock freedom, liveness of the release window); every maximal interleaving of the 2-thread model is executed by real threads parked by hook H1 and validated step by step with the complete intern-table state; barrier snapshots of free-running threads must satisfy all invariants.",
                 note="Trusted: hook H1 placement (between Arc::into_inner and the table lock), TLC, thread/op bounds of the model; Arc internals are not modelled below the strong count.",
